@@ -476,13 +476,13 @@ class Parser:
         return node
 
     def ensure_real(self, number: TokenInfo) -> float | int:
-        value = ast.literal_eval(number.string)
+        value = self._eval_string_token(number)
         if not isinstance(value, float | int):
             self.raise_syntax_error_known_location("real number required in complex literal", number)
         return value
 
     def ensure_imaginary(self, number: TokenInfo) -> complex:
-        value = ast.literal_eval(number.string)
+        value = self._eval_string_token(number)
         if not isinstance(value, complex):
             self.raise_syntax_error_known_location("imaginary number required in complex literal", number)
         return value
@@ -524,7 +524,7 @@ class Parser:
         )
 
     def _eval_string_token(self, tok: TokenInfo) -> Any:
-        """Value of a STRING token; an invalid literal is reported at the token, not inside it."""
+        """Value of a STRING or NUMBER token; an invalid literal is reported at the token, not inside it."""
         try:
             return ast.literal_eval(tok.string)
         except SyntaxError as e:
